@@ -46,6 +46,14 @@ def gen_qbits(rng, tier):
       if po2 and rng.random() < 0.4:
         mn = int(rng.integers(-14, 0)) if rng.random() < 0.7 else None
         mx = int(rng.integers(-8, 6)) if rng.random() < 0.7 else None
+        # boundary values of the bounds themselves: 0 is a legitimate exponent bound (and falsy in Python)
+        t = rng.random()
+        if t < 0.12:
+          mn = 0
+        elif t < 0.24:
+          mx = 0
+        elif t < 0.30:
+          mn = mx = 0
       if stream == "exact":
         x = A.exact_tensor(rng, sh, kinds[int(rng.integers(0, len(kinds)))])
       else:
@@ -75,6 +83,15 @@ def gen_qbits(rng, tier):
     cases.append(dict(stream="absorb", q="qbits", shape=[2, 2], x=np.array(xs, dtype=np.float32).reshape(2, 2),
                       bits=bits, integer=0, kn=True, po2=True, ch_last=True, sa=None, eps=None, mn=None, mx=mx,
                       pts=None))
+  # exponent bounds that are 0 (falsy but configured), with data whose best scale lies outside them
+  for mn, mx in ((None, 0), (0, None), (0, 0), (0, 3), (-3, 0)):
+    for mag in (200.0, 1.0 / 64):
+      for bits in (3, 6):
+        sh = [3, 4]
+        x = (rng.integers(-7, 8, size=sh) * mag / 8.0).astype(np.float32)
+        x[0, 0] = mag
+        cases.append(dict(stream="bound0", q="qbits", shape=sh, x=x, bits=bits, integer=int(rng.integers(0, 2)),
+                          kn=True, po2=True, ch_last=True, sa=None, eps=None, mn=mn, mx=mx, pts=None))
   return cases, tw
 
 
